@@ -214,7 +214,14 @@ pub fn get_highest_quality_language(accept_language: String) -> Option<String> {
                 .to_ascii_lowercase();
             let quality: f32 = lang_and_quality
                 .next()
-                .and_then(|q| q.trim().trim_start_matches("q=").parse::<f32>().ok())
+                .and_then(|q| {
+                    // The parameter name is case-insensitive (RFC 7231 5.3.1, RFC 5234 2.3)
+                    q.trim()
+                        .trim_start_matches("q=")
+                        .trim_start_matches("Q=")
+                        .parse::<f32>()
+                        .ok()
+                })
                 .unwrap_or(1.0);
 
             LANGUAGES
